@@ -100,6 +100,34 @@ class _LazyIter:
         return self.buf[i]
 
 
+def _const_eval(node):
+    """literal value of a constant expression: a literal display, or integer arithmetic over literals (`2**53`, `1 << 24`, `16 * 1024`)"""
+    try:
+        return ast.literal_eval(node)
+    except (ValueError, TypeError, SyntaxError):
+        pass
+    import operator as _op
+    ops = {ast.Add: _op.add, ast.Sub: _op.sub, ast.Mult: _op.mul, ast.Pow: _op.pow, ast.LShift: _op.lshift, ast.RShift: _op.rshift, ast.BitOr: _op.or_, ast.BitAnd: _op.and_,
+           ast.FloorDiv: _op.floordiv, ast.Mod: _op.mod}
+
+    def go(n):
+        if isinstance(n, ast.Constant) and isinstance(n.value, int) and not isinstance(n.value, bool):
+            return n.value
+        if isinstance(n, ast.BinOp) and type(n.op) in ops:
+            a, b = go(n.left), go(n.right)
+            if isinstance(n.op, (ast.Pow, ast.LShift)) and not (0 <= b <= 4096):
+                raise ValueError("exponent")
+            return ops[type(n.op)](a, b)
+        if isinstance(n, ast.UnaryOp) and isinstance(n.op, (ast.USub, ast.UAdd, ast.Invert)):
+            v = go(n.operand)
+            return -v if isinstance(n.op, ast.USub) else (~v if isinstance(n.op, ast.Invert) else v)
+        raise ValueError("not a constant expression")
+    try:
+        return go(node)
+    except (ValueError, ZeroDivisionError, TypeError):
+        raise ValueError("not a constant expression")
+
+
 class Tiny:
     def __init__(self, env, calls=None, default_call=None, model_types=False, opaque_globals=False, inline_self=None, model_strings=False, local_defs=False):
         self.model_strings = model_strings  # opt-in: pure str/bytes operations on the model's own constants (split, find, slicing, int(), join ...)
@@ -132,7 +160,16 @@ class Tiny:
                 return e.value
             raise AnalysisError(f"tiny: constant {e.value!r}")
         if isinstance(e, (ast.List, ast.Tuple)):
-            return [self.ev(x) for x in e.elts]
+            out_ = []
+            for x in e.elts:
+                if isinstance(x, ast.Starred):   # (*a, b): the elements of a, in place
+                    v_ = self.ev(x.value)
+                    if not isinstance(v_, (list, tuple)):
+                        raise AnalysisError(f"tiny: unpacking of {ast.unparse(x.value)[:40]}")
+                    out_.extend(v_)
+                else:
+                    out_.append(self.ev(x))
+            return out_
         if isinstance(e, ast.Dict):
             return {self.ev(k): self.ev(v) for k, v in zip(e.keys, e.values) if k is not None}
         if isinstance(e, ast.Set):
@@ -151,6 +188,18 @@ class Tiny:
                     base = None
                 if isinstance(base, Sym) and e.attr in base.attrs:
                     return base.attrs[e.attr]
+                if isinstance(base, dict) and e.attr == "get":
+                    # d.get as a value (handed to map(), stored in a local): a callable that looks up in that dict
+                    def _bound_get(*a_, _d=base):
+                        if not 1 <= len(a_) <= 2:
+                            raise TinyRaise("TypeError")
+                        try:
+                            return _d.get(*a_)
+                        except TypeError:
+                            raise TinyRaise("TypeError")
+                    return Sym("<bound dict.get>", methods={"__call__": _bound_get})
+                if isinstance(base, Sym) and e.attr in base.methods and callable(base.methods[e.attr]):
+                    return Sym(f"<bound {base.name}.{e.attr}>", methods={"__call__": base.methods[e.attr]})
             if self.model_types and isinstance(e, ast.Name) and t in _PYTYPES:
                 return _PYTYPES[t]
             if isinstance(e, ast.Attribute) and isinstance(e.value, ast.Name) and e.value.id == "self" and getattr(self, "klass", None) is not None:
@@ -158,16 +207,34 @@ class Tiny:
                 for k_ in self.klass:
                     for st_ in k_.body:
                         if isinstance(st_, ast.Assign) and len(st_.targets) == 1 and isinstance(st_.targets[0], ast.Name) and st_.targets[0].id == e.attr:
+                            sv_ = st_.value
+                            if isinstance(sv_, ast.Call) and norm.text(sv_.func) in ("struct.Struct", "Struct") and len(sv_.args) == 1 and not sv_.keywords \
+                                    and isinstance(sv_.args[0], ast.Constant) and isinstance(sv_.args[0].value, str) and self.default_call is not None:
+                                # a precompiled struct format: S.pack(a, ..) is struct.pack(fmt, a, ..) etc. -- answered by the rule's oracle under those names
+                                import struct as _struct
+                                fmt_ = sv_.args[0].value
+                                dc_ = self.default_call
+                                return Sym(f"struct.Struct({fmt_!r})", format=fmt_, size=_struct.calcsize(fmt_), methods={
+                                    "pack": lambda *a_: dc_("struct.pack", [fmt_] + list(a_)),
+                                    "unpack": lambda b_: dc_("struct.unpack", [fmt_, b_]),
+                                    "unpack_from": lambda b_, off_=0: dc_("struct.unpack_from", [fmt_, b_, off_])})
                             try:
-                                v_ = ast.literal_eval(st_.value)
+                                v_ = _const_eval(st_.value)
                             except (ValueError, TypeError, SyntaxError):
                                 continue
                             if isinstance(v_, (tuple, list, dict, set, frozenset, int, str, bytes, bool)) or v_ is None:
                                 return _from_py(list(v_) if isinstance(v_, tuple) else v_) if self.model_strings else (list(v_) if isinstance(v_, tuple) else v_)
+            if isinstance(e, ast.Attribute) and isinstance(e.value, ast.Name) and e.value.id == "self" and getattr(self, "klass", None) is not None:
+                # a @property of the class the evaluated code lives in (or of a base in the same module): its body is evaluated in place
+                for k_ in self.klass:
+                    for st_ in k_.body:
+                        if isinstance(st_, ast.FunctionDef) and st_.name == e.attr and any(isinstance(d_, ast.Name) and d_.id == "property" for d_ in st_.decorator_list) \
+                                and len(st_.args.args) == 1 and not st_.args.vararg and not st_.args.kwarg:
+                            return self._call_inline(st_, [], {})
             if isinstance(e, ast.Name) and getattr(self, "module", None) is not None and t in getattr(self.module, "consts", {}):
                 # a module-level table / constant given as a literal
                 try:
-                    return _from_py(ast.literal_eval(self.module.consts[t])) if self.model_strings else ast.literal_eval(self.module.consts[t])
+                    return _from_py(_const_eval(self.module.consts[t])) if self.model_strings else _const_eval(self.module.consts[t])
                 except (ValueError, TypeError, SyntaxError):
                     pass
             if self.opaque_globals and t:
@@ -399,6 +466,15 @@ class Tiny:
                 vals = [self.ev(a) for a in e.args]
                 if all(isinstance(v, int) for v in vals) and len(range(*vals)) <= 4096:
                     return list(range(*vals))
+            if f == "next" and len(e.args) == 1 and isinstance(e.args[0], ast.GeneratorExp) and not any(g_.is_async for g_ in e.args[0].generators):
+                # next(x for x in it if c): the first element that passes, pulled lazily (the source may be an endless iterator)
+                gen_ = self._comp(e.args[0])
+                try:
+                    return next(gen_)
+                except StopIteration:
+                    raise TinyRaise("StopIteration")
+                finally:
+                    gen_.close()
             if f == "next" and len(e.args) == 1:
                 it = self.ev(e.args[0])
                 if hasattr(it, "__next__"):
@@ -458,6 +534,11 @@ class Tiny:
             if f in ("bytes", "bytearray", "memoryview") and len(e.args) == 1:
                 v = self.ev(e.args[0])
                 return list(v) if isinstance(v, (list, tuple)) else v
+            if f == "map" and len(e.args) == 2 and not e.keywords and "map" not in self.calls:
+                fn_, seq_ = self.ev(e.args[0]), self.ev(e.args[1])
+                if isinstance(fn_, Sym) and callable(fn_.methods.get("__call__")) and isinstance(seq_, (list, tuple)):
+                    return [fn_.methods["__call__"](x_) for x_ in seq_]
+                raise AnalysisError(f"tiny: map({ast.unparse(e.args[0])[:30]}, ...)")
             if f in ("tuple", "list") and len(e.args) <= 1 and not e.keywords:
                 if not e.args:
                     return []
@@ -701,11 +782,16 @@ class Tiny:
             seq = sorted(seq, key=repr)
         if self.model_strings and (isinstance(seq, str) or (isinstance(seq, Buf) and len(seq) == 0)):
             seq = list(seq) if isinstance(seq, str) else []
-        if not isinstance(seq, (list, tuple)):
+        lazy = hasattr(seq, "__next__")   # a Python iterator handed in by the rule (e.g. itertools.cycle): pulled element by element, bounded
+        if not isinstance(seq, (list, tuple)) and not lazy:
             raise AnalysisError(f"tiny: comprehension over {seq!r}")
         saved = dict(self.env)
         try:
-            for item in list(seq):
+            pulled = 0
+            for item in (seq if lazy else list(seq)):
+                pulled += 1
+                if lazy and pulled > 4096:
+                    raise AnalysisError("tiny: comprehension over an endless iterator does not terminate")
                 if isinstance(g.target, ast.Name):
                     self.env[g.target.id] = item
                 elif isinstance(g.target, ast.Tuple) and isinstance(item, (list, tuple)) and len(item) == len(g.target.elts):
